@@ -591,3 +591,24 @@ def inline_helpers(e: ast.expr, repo, fi, atom=None, depth: int = 2, only_privat
             val = _Subst({p: binding[p] for p in params}, deep=True, force=True).visit(copy.deepcopy(rets[0].value))
             return T(self.d - 1).visit(val)
     return ast.fix_missing_locations(T(depth).visit(copy.deepcopy(e)))
+
+
+def quantifier_values(value: ast.expr, atom) -> Optional[set]:
+    """possible truth values of `any(c for t in I)` / `all(...)` when the element condition is decided by `atom` for a
+    generic element (written `<elem>(I)`, like the loop variable of a loop run once); None if `value` is no such call"""
+    v = value
+    if not (isinstance(v, ast.Call) and isinstance(v.func, ast.Name) and v.func.id in ("any", "all") and len(v.args) == 1 and isinstance(v.args[0], (ast.GeneratorExp, ast.ListComp))
+            and len(v.args[0].generators) == 1 and not v.args[0].generators[0].ifs and isinstance(v.args[0].generators[0].target, ast.Name)):
+        return None
+    g = v.args[0].generators[0]
+    elem = ast.Call(func=ast.Name(id="<elem>", ctx=ast.Load()), args=[g.iter], keywords=[])
+    cond = _Subst({g.target.id: elem}, deep=True, force=True).visit(copy.deepcopy(v.args[0].elt))
+    neg = False
+    while isinstance(cond, ast.UnaryOp) and isinstance(cond.op, ast.Not):
+        cond, neg = cond.operand, not neg
+    r = atom(cond)
+    if r is None:
+        return {True, False}
+    r = (not r) if neg else r
+    # a generic element satisfying c: any -> True, all -> True; not satisfying: any -> False (no element does), all -> False
+    return {bool(r)}
